@@ -25,7 +25,7 @@ def main() -> int:
 
     # A hang produces stacks on stderr; the parent treats the missing result as inconclusive.
     faulthandler.dump_traceback_later(a.timeout, exit=True)
-    logging.disable(logging.CRITICAL)
+    logging.getLogger().addHandler(logging.NullHandler())  # no output; monitors attach their own capturing handlers
     common.ensure_deps()
     common.assert_repo_tree()
     mod = common.load_module(a.prop)
